@@ -234,6 +234,23 @@ int main(int argc, char** argv) {
   run_class(grid_generator_adapter(), depth);
   run_class(congruence_adapter(), depth);
   run_class(ggsys_adapter(), depth + 1);
+#elif VF_GROUP == 8
+  run_class(dense_row_adapter(), depth + 1);
+  run_class(sparse_row_adapter(), depth + 1);
+  run_class(matrix_adapter<PPL::Dense_Row>("Matrix<Dense_Row>"), depth + 1);
+  run_class(matrix_adapter<PPL::Sparse_Row>("Matrix<Sparse_Row>"), depth + 1);
+  run_class(bit_matrix_adapter(), depth + 1);
+#elif VF_GROUP == 9
+  { typedef PPL::Checked_Number<mpq_class, PPL::WRD_Extended_Number_Policy> NQ; typedef PPL::Checked_Number<mpz_class, PPL::WRD_Extended_Number_Policy> NZ;
+    typedef PPL::Checked_Number<double, PPL::WRD_Extended_Number_Policy> ND; typedef PPL::Checked_Number<float, PPL::WRD_Extended_Number_Policy> NF;
+    typedef PPL::Checked_Number<int8_t, PPL::WRD_Extended_Number_Policy> N8; typedef PPL::Checked_Number<int16_t, PPL::WRD_Extended_Number_Policy> N16;
+    run_class(db_matrix_adapter<NQ>("DB_Matrix<mpq_class>"), depth + 1);
+    run_class(db_matrix_adapter<ND>("DB_Matrix<double>"), depth + 1);
+    run_class(db_matrix_adapter<N8>("DB_Matrix<int8_t>"), depth + 1);
+    run_class(or_matrix_adapter<NZ>("OR_Matrix<mpz_class>"), depth + 1);
+    run_class(or_matrix_adapter<NF>("OR_Matrix<float>"), depth + 1);
+    run_class(or_matrix_adapter<N16>("OR_Matrix<int16_t>"), depth + 1);
+  }
 #else
 #error "VF_GROUP not set"
 #endif
